@@ -57,11 +57,25 @@ def run_api(job):
                 def get_propagators(self, dt, start_time, subdiv_limit, epsrel):
                     return lambda step, field, deriv: (halves[("h1", step)], halves[("h2", step)])
             fs = FS(lambda t, a: np.zeros((d, d)))
-            mfs = oqupy.MeanFieldSystem([fs], field_eom=lambda t, s, a: 0.0)
-            kw = {} if pts else {"dt": DT, "num_steps": n}
-            mfd = oqupy.compute_dynamics_with_field(
-                mfs, 0.5, process_tensor_list=[pts] if pts else None, initial_state_list=[rho0],
-                start_time=start, control_list=[ctrl] if ctrl else None, progress_type="silent", **kw)
+            if ctrl is not None and not pts and len(case["ctl"]) % 2 == 1:
+                # a second system of the same dimension, last in the list and without controls: every system follows its own
+                # schedule (the second one must stay what its propagators alone make of it)
+                fs2 = FS(lambda t, a: np.zeros((d, d)))
+                mfs = oqupy.MeanFieldSystem([fs, fs2], field_eom=lambda t, s, a: 0.0)
+                mfd = oqupy.compute_dynamics_with_field(
+                    mfs, 0.5, initial_state_list=[rho0, rho0.copy()], dt=DT, num_steps=n,
+                    start_time=start, control_list=[ctrl, oqupy.Control(d)], progress_type="silent")
+                free = oqupy.compute_dynamics_with_field(
+                    oqupy.MeanFieldSystem([FS(lambda t, a: np.zeros((d, d)))], field_eom=lambda t, s, a: 0.0), 0.5,
+                    initial_state_list=[rho0.copy()], dt=DT, num_steps=n, start_time=start, progress_type="silent")
+                if np.max(np.abs(np.array(mfd.system_dynamics[1].states) - np.array(free.system_dynamics[0].states))) > 1e-12:
+                    out.append({"what": "system-without-controls-affected-by-another-systems-schedule"})
+            else:
+                mfs = oqupy.MeanFieldSystem([fs], field_eom=lambda t, s, a: 0.0)
+                kw = {} if pts else {"dt": DT, "num_steps": n}
+                mfd = oqupy.compute_dynamics_with_field(
+                    mfs, 0.5, process_tensor_list=[pts] if pts else None, initial_state_list=[rho0],
+                    start_time=start, control_list=[ctrl] if ctrl else None, progress_type="silent", **kw)
             states, times = np.array(mfd.system_dynamics[0].states), np.array(mfd.times)
         elif api == "grad":
             from oqupy.gradient import compute_gradient_and_dynamics
